@@ -22,6 +22,7 @@ import (
 	"strconv"
 	"strings"
 	"sync"
+	"time"
 
 	"go.uber.org/zap"
 	"google.golang.org/grpc"
@@ -928,19 +929,30 @@ func main() {
 		}
 		runSys(sysLines, chReal, orcSys, rep, o)
 	} else {
-		exhMerge(chMerge)
-		genMerge(g, chMerge, o.Pick(3000, 40000))
-		genEnsured(g, chEns, o.Pick(500, 10000))
-		genSortFilter(g, chSort, chFilt, o.Pick(500, 5000))
-		genPaginate(chPag)
-		chPag.Exhaustive = true
-		exhSearchDocs(chSD, orcSD, rep)
-		genSearchDocs(g, chSD, orcSD, rep, o.Pick(600, 8000), o.Pick(4, 7))
-		genProxy(g, chPx, orcPx, rep, o.Pick(400, 5000))
-		runSys(genSys(g, o), chReal, orcSys, rep, o)
+		want := func(name string) bool { return o.Only == "" || o.Only == name }
+		stage := func(name string, f func()) {
+			if !want(name) {
+				return
+			}
+			t0 := time.Now()
+			f()
+			rep.Note("stage %s: %.1fs", name, time.Since(t0).Seconds())
+		}
+		stage("merge", func() { exhMerge(chMerge); genMerge(g, chMerge, o.Pick(3000, 40000)) })
+		stage("ensured", func() { genEnsured(g, chEns, o.Pick(500, 10000)) })
+		stage("sortfilter", func() { genSortFilter(g, chSort, chFilt, o.Pick(500, 5000)) })
+		stage("paginate", func() { genPaginate(chPag); chPag.Exhaustive = true })
+		stage("searchdocs", func() {
+			exhSearchDocs(chSD, orcSD, rep)
+			genSearchDocs(g, chSD, orcSD, rep, o.Pick(600, 8000), o.Pick(4, 7))
+		})
+		stage("proxy", func() { genProxy(g, chPx, orcPx, rep, o.Pick(400, 5000)) })
+		stage("sys", func() { runSys(genSys(g, o), chReal, orcSys, rep, o) })
 	}
 	for _, ch := range []*vh.Channel{chMerge, chEns, chSort, chFilt, chPag, chSD, chPx, chReal} {
+		t0 := time.Now()
 		rep.AddChannel(ch, o.Driver)
+		rep.Note("driver %s: %d cases %.1fs", ch.Name, ch.Cases, time.Since(t0).Seconds())
 	}
 	rep.AddOracle(orcSD)
 	rep.AddOracle(orcPx)
